@@ -21,6 +21,7 @@ var c03Ops = []string{
 	"sort", "sort_by(.a)", "reverse", "unique", ".[1:]", ".[:-1]", "map(.)", "map(select(. != 1))", "filter(. != 1)", "[.[]]",
 	". + [9]", "[9] + .", "flatten", "group_by(.a)", "to_entries", "with_entries(.)", `pick(["a"])`, "pick([1, 0])", `omit(["a"])`, "omit([0])",
 	".a", ".[0]", "(.a = (.a | sort))", "(.a |= reverse)", "(.b = .a)", "del(.[0])", "del(.a)", ". * {\"c\": [2, 1]}", "unique_by(.a)", "[.[] | select(. != 1)]",
+	"(.b = (.a | reverse))", "(.c = (.a | sort))", "(.b = (.a | .[1:]))", "(.c = [.a[]])", "(.b = (.a | map(.)))", "(.[0] = (.[1] | reverse))",
 }
 
 func c03Selections() []*refsem.E {
